@@ -41,6 +41,7 @@ type refNA struct {
 	expires                   uint32
 	q                         uint16
 	qBad                      bool
+	hasExpiresAny             bool // an expires parameter without a value: the flag is not specified, the number is 0
 }
 
 // refNameAddr renders the value at offset `at` and derives the expected result.
@@ -110,6 +111,9 @@ func refNameAddr(n NameAddrSpec, at int) ([]byte, refNA) {
 		}
 		if ln == "lr" {
 			r.lr = true
+		}
+		if ln == "expires" && (!p.HasEq || len(p.Val) == 0) {
+			r.hasExpiresAny = true
 		}
 	}
 	all := w.Bytes()
@@ -186,7 +190,7 @@ func cmpNA(what string, buf []byte, f *sipsp.PFromBody, r refNA, wantType sipsp.
 	} else if int(f.Tag.Offs) != r.tagAt || !bytes.Equal(get(f.Tag), r.tag) {
 		return fmt.Sprintf("%s: Tag = (%d) %q, want (%d) %q", what, f.Tag.Offs, get(f.Tag), r.tagAt, r.tag)
 	}
-	if f.HasExpires != r.hasExpires || f.Expires != r.expires {
+	if (f.HasExpires != r.hasExpires && !r.hasExpiresAny) || f.Expires != r.expires {
 		return fmt.Sprintf("%s: HasExpires/Expires = %v/%d, want %v/%d", what, f.HasExpires, f.Expires, r.hasExpires, r.expires)
 	}
 	if !r.qBad && f.Q != r.q {
@@ -502,6 +506,13 @@ func genNAForModel(t *rapid.T, allowStar bool, bigExpires bool) NameAddrSpec {
 			continue
 		}
 		seen[ln] = true
+		if (ln == "tag" || ln == "expires" || ln == "q") && rapid.IntRange(0, 5).Draw(t, "valueless") == 0 {
+			// written without a value (";tag", ";expires=", ";q"): nothing to report for it
+			p.HasEq = rapid.Bool().Draw(t, "emptyeq")
+			p.Val = nil
+			ps = append(ps, p)
+			continue
+		}
 		switch ln {
 		case "tag":
 			p.HasEq = true
